@@ -135,6 +135,8 @@ def random_ops(rng, n_actions, length, seeded=True, p_foreign=0.1):
     if rng.random() < 0.15:
         ops.append(rng.choice([('GS',), ('GO',), ('T', 0)]))  # before the first reset
     ops.append(('R',))
+    if rng.random() < 0.2:
+        ops.extend([('R',)] * rng.randint(1, 2) + [('GO',)])  # episodes of length zero
     for _ in range(length):
         r = rng.random()
         if r < 0.6:
@@ -146,7 +148,7 @@ def random_ops(rng, n_actions, length, seeded=True, p_foreign=0.1):
         elif r < 0.9:
             ops.extend([('GO',), ('GO',)])
         elif r < 0.96:
-            ops.append(('R',))
+            ops.extend([('R',)] * rng.choice([1, 1, 2]))
         else:
             ops.append(('S', rng.randrange(2**31)))
     return ops
@@ -446,11 +448,13 @@ def fam_gym_shipped(seed, shard, nshards, n):
             if rng.random() < 0.85:
                 ops.append(('S', rng.randrange(2**31)))
             ops.append(('V' if with_state else 'R',))
+            if rng.random() < 0.3:
+                ops.extend([('V' if with_state else 'R',)] * rng.randint(1, 2))  # episodes of length zero
             for _ in range(rng.randint(3, 25)):
                 r = rng.random()
                 idx = rng.randrange(nact) if r < 0.92 else rng.choice([nact, -1, nact + 3, -nact - 1])
                 if r > 0.97:
-                    ops.append(('V' if with_state else 'R',))
+                    ops.extend([('V' if with_state else 'R',)] * rng.choice([1, 1, 2]))
                 else:
                     ops.append(('W' if with_state else 'T', idx))
             opstr, exp = run_gym_history(genv, wrapper, ops, rng.randrange(2**31))
